@@ -49,16 +49,24 @@ def scene_for(eng, cname, second=False):
     fam = scn.family(eng, s.cls)
     api.type_facts(eng, st, set([s.cls, fam[0], fam[1]]))
     st.assume(s.susp0 == 0)
-    fn = to_val(st.rec(s.self_).fields["_filename"])
+    fn = buffer_inv(eng, s, st, s.self_)
+    return s, st, fn
+
+
+def buffer_inv(eng, s, st, root):
+    """Inv.buffer / Inv.cover / Inv.registry / Inv.size assumed for the file of the (known) root object `root` and
+    for an arbitrary other file (Skolem, stored in s.other_file); ghost arrays of the registry members."""
+    cname = st.rec(root).cls.name
+    fn = to_val(st.rec(root).fields["_filename"])
     b = Buf(eng, st, cname)
     # Inv.buffer at entry, for this file: a present entry is well-formed; the registry / buffer / entry cells are
     # distinct container objects, distinct from the collections' own containers
     st.assume(z3.Implies(b.has(fn), b.wellformed(fn)))
-    d = Val.addr(st.rec(s.self_).fields["_data"].term)
+    d = Val.addr(st.rec(root).fields["_data"].term)
     st.assume(b.ba != b.ra, d != b.ba, d != b.ra, z3.Implies(b.has(fn), b.entry_addr(fn) != d))
     st.assume(z3.Implies(b.has(fn), z3.And(b.entry_addr(fn) < st.g["Alloc"])))
     st.ghost["frame_cells"] = [b.entry_addr(fn)]
-    st.assume(z3.Implies(b.has(fn), b.content_inv(fn, s.cls)))
+    st.assume(z3.Implies(b.has(fn), b.content_inv(fn, st.rec(root).cls)))
     st.assume(b.size <= b.cap, b.size >= 0)       # I6: outside an operation the size is within the capacity
     from contracts.buffers import inv_size
     st.assume(inv_size(b))                        # Inv.size: the reported size is the sum of the contributions [L-SUM]
@@ -68,6 +76,9 @@ def scene_for(eng, cname, second=False):
     st.assume(z3.Implies(b.has(g0), z3.And(b.wellformed(g0), b.entry_addr(g0) != d, b.entry_addr(g0) < st.g["Alloc"])))
     st.assume(z3.Implies(z3.And(b.has(g0), b.has(fn), g0 != fn), b.entry_addr(g0) != b.entry_addr(fn)))
     st.ghost["frame_cells"].append(b.entry_addr(g0))
+    # (convention for the uninterpreted value of B[f] when f has no entry: its "address" is a place nothing uses, so
+    # that the foreign-container frames instantiated at entry addresses say nothing about real cells in that case)
+    st.assume(z3.Implies(z3.Not(b.has(fn)), b.entry_addr(fn) == -7), z3.Implies(z3.Not(b.has(g0)), b.entry_addr(g0) == -7))
     # [E-UUID] the file names of collections are names the program holds: a fresh temp name is none of them
     st.assume(smt.known_name(fn), smt.known_name(g0))
     # registry members of unknown identity: their attributes are ghost functions of the address; Inv.cover at fn, g0
@@ -101,7 +112,7 @@ def scene_for(eng, cname, second=False):
         st.assume(z3.Implies(b.has(fn), z3.And(smt.is_VRef(c), Val.addr(c) > 1000, Val.addr(c) < st.g["Alloc"],
                                                Val.addr(c) != b.ba, Val.addr(c) != b.ra, Val.addr(c) != b.entry_addr(fn),
                                                smt.is_VBool(b.field(fn, K_MODIFIED)))))
-    return s, st, fn
+    return fn
 
 
 def run_task(eng, prover, task, out):
